@@ -104,7 +104,9 @@ def main(argv):
     scfgs = []
     for b in (1, 2) if not quick else (1,):
         for c in (16, 32, 48, 64, 96):
-            for objs in ([48], [96], [48, 48], [48, 96], [96, 96, 48]):
+            # 49 / 98 / 127: objects followed by alignment padding (zero bytes that no member supplies), several per container or
+            # spanning containers, so that padding lands in containers the stage allocated (or recycled) at different times
+            for objs in ([48], [96], [48, 48], [48, 96], [96, 96, 48], [49, 49], [49, 98, 49], [127, 49], [49, 49, 49, 49]):
                 for lv in (0, 6):
                     for rpv in (0, 1):
                         if b == 2 and (len(objs) > 2 or lv):
@@ -119,7 +121,9 @@ def main(argv):
     di += agg["distinct_traces"]
     rule = ("evaluations = write sessions (per heap pattern, plus the repeated ones) + encodings per build; distinct = distinct files / encodings; "
             "every (objects, configuration) pair is required to give byte-identical output in all runs")
-    return enumcheck.finish("C14", tier, seed, t0, viol, infra, ev, di, samples, rule, ASSUME,
-                            extra={"heap_patterns": sorted(poison), "sessions_compared_across_patterns": len(runs["heap=none"]),
+    sched_exhaustive = not agg.get("skipped") and not agg.get("configs_incomplete", 0)
+    return enumcheck.finish("C14", tier, seed, t0, viol, infra, ev, di, samples, rule, ASSUME, exhaustive=sched_exhaustive,
+                            extra={"write_session_configurations_skipped_by_deadline": agg.get("skipped", 0),
+                                   "heap_patterns": sorted(poison), "sessions_compared_across_patterns": len(runs["heap=none"]),
                                    "encodings_compared_across_builds": len(enc["build=plain"]),
                                    "write_session_schedules_explored": agg["executions"], "write_session_configurations": agg["configs"]})
